@@ -78,9 +78,9 @@ P = {
   note="Payload lengths bounded per harness (0-8 bytes; DHCP option lists by shape); checksums ignored here (C08). Two known findings (DHCP renew/rebind durations never emitted; 802.15.4-2015 PAN-id compression with two extended addresses). 13 defects fixed.",
   ref="DESIGN.md 5/C06, 14"),
  "C07": dict(
-  tech="arbitrary-bytes harnesses: symbolic buffer of symbolic length <= N per wire type, new_checked, then every read accessor applicable to the message type, Repr::parse, and (bounded) the pretty printer; termination by unwinding assertions (opts=term); one-step harness over all iterator states for DNS parse_name",
-  text="For every byte string up to the per-type bound (Ethernet 20, ARP 40, IPv4 32, IPv6 48, extension headers/options 12-28, ICMPv4 44, every ICMPv6/NDISC/MLD message type 32-56, UDP 32, TCP 30 with option walks, DHCP 240+6 option bytes and shaped option lists, DNS 28-32, IEEE 802.15.4 40 incl. the auxiliary security header, 6LoWPAN frag/IPHC/NHC 12-44): a failed check returns Err, and after a successful check no accessor, Repr::parse or option/name iterator panics, overflows, reads outside the buffer or fails to terminate.",
-  note="Lengths above the per-type bounds (up to 2048 in the property) are outside; whole parse_name iterations rest on the one-step harness plus the (|packet|,|bytes|) measure argument in the harness comments; nested pretty printers (ICMPv4 in IPv4 etc.) only in the thorough tier or not reached (stated in wire_views.rs). Three defects fixed.",
+  tech="arbitrary-bytes harnesses: symbolic buffer of symbolic length <= N per wire type, new_checked, then every read accessor applicable to the message type, Repr::parse, and for a few types the pretty printer; termination by unwinding assertions (opts=term); one-step harness over all iterator states for DNS parse_name",
+  text="For every byte string up to the per-type bound (Ethernet 20, ARP 40, IPv4 32, IPv6 48, extension headers/options 12-28, ICMPv4 44, every ICMPv6/NDISC/MLD message type 32-56, UDP 32, TCP 30 with option walks, DHCP 240+6 option bytes and shaped option lists, DNS 28-32, IEEE 802.15.4 40 incl. the auxiliary security header, 6LoWPAN frag/IPHC/NHC 12-44): a failed check returns Err, and after a successful check no accessor, Repr::parse or option/name iterator (and, for UDP, IGMP, IPv4, IPv6, IEEE 802.15.4, no Display/pretty-printer) panics, overflows, reads outside the buffer or fails to terminate.",
+  note="Lengths above the per-type bounds (up to 2048 in the property) are outside; whole parse_name iterations rest on the one-step harness plus the (|packet|,|bytes|) measure argument in the harness comments; pretty printers: only UDP, IGMP and ARP-free Display impls of IPv4/IPv6/IEEE 802.15.4 (+ IPv6 extension headers in the thorough tier) are decided; the nested printers (Ethernet > IPv4/IPv6 > ICMP/TCP) and the NDISC-option and TCP printers ran out of 16 GB (core::fmt under CBMC) and are NOT part of the claim; the larger-N twins of the TCP/DNS/DHCP view harnesses likewise. Three defects fixed.",
   ref="DESIGN.md 5/C07, 14"),
  "C08": dict(
   tech="equivalence of checksum::data/combine/pseudo_header with an independent RFC 1071 reference on symbolic buffers; emit-then-verify-with-reference per protocol; accept-implies-valid and reject-invalid harnesses on corrupted packets; interface-level drop-without-effect harnesses",
